@@ -36,6 +36,7 @@ type TypeOps struct {
 	Unsub       func(b *eb.EventBus, fn string) error
 	Pub         func(b *eb.EventBus, ctx context.Context, pub int, val string)
 	PubNoCtx    func(b *eb.EventBus, pub int, val string)
+	PubAny      func(b *eb.EventBus, ctx context.Context, pub int, val string)
 	Clear       func(b *eb.EventBus)
 	Count       func(b *eb.EventBus) int
 	Has         func(b *eb.EventBus) bool
@@ -88,6 +89,11 @@ func mkOps[T any](name string, mk func(int, string) T,
 	}
 	ops.Pub = func(b *eb.EventBus, ctx context.Context, pub int, val string) { eb.PublishContext(b, ctx, mk(pub, val)) }
 	ops.PubNoCtx = func(b *eb.EventBus, pub int, val string) { eb.Publish(b, mk(pub, val)) }
+	// the event travels in an interface value: the publish's static type parameter is `any`, its dynamic type is T
+	ops.PubAny = func(b *eb.EventBus, ctx context.Context, pub int, val string) {
+		var e any = mk(pub, val)
+		eb.PublishContext(b, ctx, e)
+	}
 	ops.Clear = func(b *eb.EventBus) { eb.Clear[T](b) }
 	ops.Count = func(b *eb.EventBus) int { return eb.HandlerCount[T](b) }
 	ops.Has = func(b *eb.EventBus) bool { return eb.HasHandlers[T](b) }
